@@ -164,223 +164,7 @@ func checkC04(c *Check) {
 		c.Fail("R1w", "inserts", token.NoPos, "undecided: expected inserts into perSource and perRcpt")
 	}
 
-	// ---- selectors
-	c.Rule("R1r", "run time: the selectors normalise the envelope address with address.ForLookup and use that value for table, full-address and (its domain part) domain lookups", 2)
-	c.Rule("R2", "selector stage order: table rules (ordered) ≺ full address ≺ domain ≺ default, later stages only over the miss edge of earlier ones; both selectors have the same stage sequence", 3)
-	type sel struct {
-		fn, tables, m string
-	}
-	var seqs [][]string
-	for _, s := range []sel{{"srcBlockForAddr", "sourceIn", "perSource"}, {"rcptBlockForAddr", "rcptIn", "perRcpt"}} {
-		r := c.need("R2", pipelineRel, "msgpipelineDelivery", s.fn)
-		if r == nil {
-			continue
-		}
-		info := r.Info
-		// normalised variable
-		var clean types.Object
-		for _, q := range r.F.Points() {
-			if as, ok := q.Node().(*ast.AssignStmt); ok && len(as.Rhs) == 1 {
-				if call, ok := ast.Unparen(as.Rhs[0]).(*ast.CallExpr); ok && isCall(info, call, "~/framework/address.ForLookup") {
-					clean = objOf(info, as.Lhs[0])
-					// argument is the address parameter
-					prm := false
-					for _, po := range paramObjs(r.FI) {
-						if objOf(info, call.Args[0]) == po {
-							prm = true
-						}
-					}
-					if !prm {
-						clean = nil
-					}
-				}
-			}
-		}
-		// table loop
-		loops := rangesIn(r.FI.Decl.Body, func(rs *ast.RangeStmt) bool {
-			fv := fieldOf(info, rs.X)
-			return fv != nil && objName(fv) == s.tables
-		})
-		// map lookups
-		type lk struct {
-			pt  Pt
-			key types.Object
-			ok  types.Object
-			as  *ast.AssignStmt
-		}
-		var lks []lk
-		for _, q := range r.F.Points() {
-			as, ok := q.Node().(*ast.AssignStmt)
-			if !ok || len(as.Rhs) != 1 || len(as.Lhs) != 2 {
-				continue
-			}
-			ix, ok := ast.Unparen(as.Rhs[0]).(*ast.IndexExpr)
-			if !ok {
-				continue
-			}
-			fv := fieldOf(info, ix.X)
-			if fv == nil || objName(fv) != s.m {
-				continue
-			}
-			lks = append(lks, lk{q, objOf(info, ix.Index), objOf(info, as.Lhs[1]), as})
-		}
-		// the normalised value may be copied into the variable that is then used (`n, err := ForLookup(a); key = n`)
-		cleanSet := map[types.Object]bool{}
-		if clean != nil {
-			cleanSet[clean] = true
-			for changed := true; changed; {
-				changed = false
-				ast.Inspect(r.FI.Decl.Body, func(n ast.Node) bool {
-					if as, ok := n.(*ast.AssignStmt); ok && len(as.Lhs) == len(as.Rhs) {
-						for i, l := range as.Lhs {
-							if y := objOf(info, as.Rhs[i]); y != nil && cleanSet[y] {
-								if x, isVar := objOf(info, l).(*types.Var); isVar && !x.IsField() && !cleanSet[x] {
-									cleanSet[x] = true
-									changed = true
-								}
-							}
-						}
-					}
-					return true
-				})
-			}
-		}
-		isClean := func(o types.Object) bool { return o != nil && cleanSet[o] }
-		msgK := ""
-		if clean == nil {
-			msgK = "the envelope address is not normalised with address.ForLookup before rule matching"
-		}
-		var full, dom *lk
-		for i := range lks {
-			if isClean(lks[i].key) {
-				full = &lks[i]
-			} else {
-				dom = &lks[i]
-			}
-		}
-		if full == nil || dom == nil || len(lks) != 2 {
-			msgK = "expected exactly one full-address and one domain lookup in the rule map"
-		} else {
-			// domain key = second result of Split(clean)
-			okDom := false
-			ast.Inspect(r.FI.Decl.Body, func(n ast.Node) bool {
-				if as, ok := n.(*ast.AssignStmt); ok && len(as.Rhs) == 1 && len(as.Lhs) == 3 {
-					if call, ok := ast.Unparen(as.Rhs[0]).(*ast.CallExpr); ok && isCall(info, call, "~/framework/address.Split") && isClean(objOf(info, call.Args[0])) && objOf(info, as.Lhs[1]) == dom.key {
-						okDom = true
-					}
-				}
-				return true
-			})
-			if !okDom {
-				msgK = "the domain used for the domain-rule lookup is not the domain part of the normalised address"
-			}
-		}
-		// table lookups receive the normalised value
-		tblOK := len(loops) == 1
-		if tblOK {
-			tblOK = false
-			ast.Inspect(loops[0].Body, func(n ast.Node) bool {
-				if call, ok := n.(*ast.CallExpr); ok && methodName(call) == "Lookup" && len(call.Args) == 2 && isClean(objOf(info, call.Args[1])) {
-					tblOK = true
-				}
-				return true
-			})
-			if _, isSlice := info.TypeOf(loops[0].X).Underlying().(*types.Slice); !isSlice {
-				tblOK = false
-			}
-		}
-		if !tblOK && msgK == "" {
-			msgK = "table rules are not an ordered slice looked up with the normalised address"
-		}
-		c.Hold("R1r", s.fn, r.FI.Decl.Pos(), msgK == "", msgK)
-		if full == nil || dom == nil || len(loops) != 1 {
-			c.Hold("R2", s.fn, r.FI.Decl.Pos(), false, "undecided: stages not found")
-			continue
-		}
-		// order
-		var tdone []Pt
-		for _, b := range r.F.G.Blocks {
-			if b.Kind == kindRangeDone && b.Stmt == ast.Stmt(loops[0]) {
-				tdone = append(tdone, Pt{b, 0})
-			}
-		}
-		msg := ""
-		if ok, w := r.MustPass(r.Entry(), true, isPt([]Pt{full.pt}), isPt(tdone)); !ok {
-			msg = "the full-address rule is consulted before all table rules were tried (a recipient matched by both goes to the address rule instead of the table rule): " + w
-		}
-		if ok, w := r.MustPass(r.Entry(), true, isPt([]Pt{dom.pt}), isPt([]Pt{full.pt})); !ok {
-			msg = "the domain rule is consulted without the full-address rule having been tried: " + w
-		}
-		if full.ok != nil {
-			if path, f := r.F.ReachRefined(full.pt, full.ok, false, true, isPt([]Pt{dom.pt}), nil); f {
-				msg = "the domain rule is consulted although the full-address rule matched: " + r.F.Describe(path)
-			}
-		}
-		// default only on miss of the domain lookup: assignment from the default* field
-		// (the default block is selected where it is read: assigned to the result variable or returned directly)
-		defAssign := r.F.Find(func(n ast.Node) bool {
-			switch n.(type) {
-			case *ast.AssignStmt, *ast.ReturnStmt, *ast.ValueSpec:
-				return mentionsField(info, n, "defaultSource") || mentionsField(info, n, "defaultRcpt")
-			}
-			return false
-		})
-		if len(defAssign) != 1 {
-			msg = "expected exactly one fallback to the default block"
-		} else if dom.ok != nil {
-			if path, f := r.F.ReachRefined(dom.pt, dom.ok, false, true, isPt(defAssign), nil); f {
-				msg = "the default block is selected although the domain rule matched: " + r.F.Describe(path)
-			}
-			if ok, w := r.MustPass(r.Entry(), true, isPt(defAssign), isPt([]Pt{dom.pt})); !ok {
-				msg = "the default block is selected without the domain rule having been tried: " + w
-			}
-		}
-		// inside the table loop a hit returns that rule's block
-		hitRet := false
-		ast.Inspect(loops[0].Body, func(n ast.Node) bool {
-			if ret, ok := n.(*ast.ReturnStmt); ok && len(ret.Results) == 2 && isNilIdent(info, ret.Results[1]) {
-				if sx, ok := ast.Unparen(ret.Results[0]).(*ast.SelectorExpr); ok && objOf(info, sx.X) == objOf(info, loops[0].Value) {
-					hitRet = true
-				}
-			}
-			return true
-		})
-		if !hitRet {
-			msg = "a table hit does not select that table rule's block"
-		}
-		c.Hold("R2", s.fn, r.FI.Decl.Pos(), msg == "", msg)
-		// stage sequence for the sibling comparison
-		var seq []string
-		type ev struct {
-			pos token.Pos
-			s   string
-		}
-		var evs []ev
-		evs = append(evs, ev{loops[0].Pos(), "tables"}, ev{full.as.Pos(), "full"}, ev{dom.as.Pos(), "domain"})
-		if len(defAssign) == 1 {
-			evs = append(evs, ev{r.Pos(defAssign[0]), "default"})
-		}
-		for i := 0; i < len(evs); i++ {
-			for j := i + 1; j < len(evs); j++ {
-				if evs[j].pos < evs[i].pos {
-					evs[i], evs[j] = evs[j], evs[i]
-				}
-			}
-		}
-		for _, e := range evs {
-			seq = append(seq, e.s)
-		}
-		seqs = append(seqs, seq)
-	}
-	if len(seqs) == 2 {
-		same := len(seqs[0]) == len(seqs[1])
-		for i := range seqs[0] {
-			if same && seqs[0][i] != seqs[1][i] {
-				same = false
-			}
-		}
-		c.Hold("R2", "siblings", token.NoPos, same, "the sender selector and the recipient selector evaluate their stages in different orders")
-	}
+	c04Selectors(c)
 
 	// ---- R5 rewrite results are not overwritten while they are still being read
 	c.Rule("R5", "recipient rewriting: the list a rewriting loop appends to never shares storage with the list it is still iterating (a 1→N rewrite would overwrite addresses not yet routed)", 2)
@@ -917,4 +701,229 @@ func c04TablesReadOnly(c *Check) {
 	if m == 0 {
 		c.Fail("R9b", "tables", token.NoPos, "undecided: no table Lookup found")
 	}
+}
+
+
+// c04Selectors: R1r / R2 (also evaluated by C15: the sender's source block decides which checks see the message)
+func c04Selectors(c *Check) {
+	p := c.P
+	_ = p
+	// ---- selectors
+	c.Rule("R1r", "run time: the selectors normalise the envelope address with address.ForLookup and use that value for table, full-address and (its domain part) domain lookups", 2)
+	c.Rule("R2", "selector stage order: table rules (ordered) ≺ full address ≺ domain ≺ default, later stages only over the miss edge of earlier ones; both selectors have the same stage sequence", 3)
+	type sel struct {
+		fn, tables, m string
+	}
+	var seqs [][]string
+	for _, s := range []sel{{"srcBlockForAddr", "sourceIn", "perSource"}, {"rcptBlockForAddr", "rcptIn", "perRcpt"}} {
+		r := c.need("R2", pipelineRel, "msgpipelineDelivery", s.fn)
+		if r == nil {
+			continue
+		}
+		info := r.Info
+		// normalised variable
+		var clean types.Object
+		for _, q := range r.F.Points() {
+			if as, ok := q.Node().(*ast.AssignStmt); ok && len(as.Rhs) == 1 {
+				if call, ok := ast.Unparen(as.Rhs[0]).(*ast.CallExpr); ok && isCall(info, call, "~/framework/address.ForLookup") {
+					clean = objOf(info, as.Lhs[0])
+					// argument is the address parameter
+					prm := false
+					for _, po := range paramObjs(r.FI) {
+						if objOf(info, call.Args[0]) == po {
+							prm = true
+						}
+					}
+					if !prm {
+						clean = nil
+					}
+				}
+			}
+		}
+		// table loop
+		loops := rangesIn(r.FI.Decl.Body, func(rs *ast.RangeStmt) bool {
+			fv := fieldOf(info, rs.X)
+			return fv != nil && objName(fv) == s.tables
+		})
+		// map lookups
+		type lk struct {
+			pt  Pt
+			key types.Object
+			ok  types.Object
+			as  *ast.AssignStmt
+		}
+		var lks []lk
+		for _, q := range r.F.Points() {
+			as, ok := q.Node().(*ast.AssignStmt)
+			if !ok || len(as.Rhs) != 1 || len(as.Lhs) != 2 {
+				continue
+			}
+			ix, ok := ast.Unparen(as.Rhs[0]).(*ast.IndexExpr)
+			if !ok {
+				continue
+			}
+			fv := fieldOf(info, ix.X)
+			if fv == nil || objName(fv) != s.m {
+				continue
+			}
+			lks = append(lks, lk{q, objOf(info, ix.Index), objOf(info, as.Lhs[1]), as})
+		}
+		// the normalised value may be copied into the variable that is then used (`n, err := ForLookup(a); key = n`)
+		cleanSet := map[types.Object]bool{}
+		if clean != nil {
+			cleanSet[clean] = true
+			for changed := true; changed; {
+				changed = false
+				ast.Inspect(r.FI.Decl.Body, func(n ast.Node) bool {
+					if as, ok := n.(*ast.AssignStmt); ok && len(as.Lhs) == len(as.Rhs) {
+						for i, l := range as.Lhs {
+							if y := objOf(info, as.Rhs[i]); y != nil && cleanSet[y] {
+								if x, isVar := objOf(info, l).(*types.Var); isVar && !x.IsField() && !cleanSet[x] {
+									cleanSet[x] = true
+									changed = true
+								}
+							}
+						}
+					}
+					return true
+				})
+			}
+		}
+		isClean := func(o types.Object) bool { return o != nil && cleanSet[o] }
+		msgK := ""
+		if clean == nil {
+			msgK = "the envelope address is not normalised with address.ForLookup before rule matching"
+		}
+		var full, dom *lk
+		for i := range lks {
+			if isClean(lks[i].key) {
+				full = &lks[i]
+			} else {
+				dom = &lks[i]
+			}
+		}
+		if full == nil || dom == nil || len(lks) != 2 {
+			msgK = "expected exactly one full-address and one domain lookup in the rule map"
+		} else {
+			// domain key = second result of Split(clean)
+			okDom := false
+			ast.Inspect(r.FI.Decl.Body, func(n ast.Node) bool {
+				if as, ok := n.(*ast.AssignStmt); ok && len(as.Rhs) == 1 && len(as.Lhs) == 3 {
+					if call, ok := ast.Unparen(as.Rhs[0]).(*ast.CallExpr); ok && isCall(info, call, "~/framework/address.Split") && isClean(objOf(info, call.Args[0])) && objOf(info, as.Lhs[1]) == dom.key {
+						okDom = true
+					}
+				}
+				return true
+			})
+			if !okDom {
+				msgK = "the domain used for the domain-rule lookup is not the domain part of the normalised address"
+			}
+		}
+		// table lookups receive the normalised value
+		tblOK := len(loops) == 1
+		if tblOK {
+			tblOK = false
+			ast.Inspect(loops[0].Body, func(n ast.Node) bool {
+				if call, ok := n.(*ast.CallExpr); ok && methodName(call) == "Lookup" && len(call.Args) == 2 && isClean(objOf(info, call.Args[1])) {
+					tblOK = true
+				}
+				return true
+			})
+			if _, isSlice := info.TypeOf(loops[0].X).Underlying().(*types.Slice); !isSlice {
+				tblOK = false
+			}
+		}
+		if !tblOK && msgK == "" {
+			msgK = "table rules are not an ordered slice looked up with the normalised address"
+		}
+		c.Hold("R1r", s.fn, r.FI.Decl.Pos(), msgK == "", msgK)
+		if full == nil || dom == nil || len(loops) != 1 {
+			c.Hold("R2", s.fn, r.FI.Decl.Pos(), false, "undecided: stages not found")
+			continue
+		}
+		// order
+		var tdone []Pt
+		for _, b := range r.F.G.Blocks {
+			if b.Kind == kindRangeDone && b.Stmt == ast.Stmt(loops[0]) {
+				tdone = append(tdone, Pt{b, 0})
+			}
+		}
+		msg := ""
+		if ok, w := r.MustPass(r.Entry(), true, isPt([]Pt{full.pt}), isPt(tdone)); !ok {
+			msg = "the full-address rule is consulted before all table rules were tried (a recipient matched by both goes to the address rule instead of the table rule): " + w
+		}
+		if ok, w := r.MustPass(r.Entry(), true, isPt([]Pt{dom.pt}), isPt([]Pt{full.pt})); !ok {
+			msg = "the domain rule is consulted without the full-address rule having been tried: " + w
+		}
+		if full.ok != nil {
+			if path, f := r.F.ReachRefined(full.pt, full.ok, false, true, isPt([]Pt{dom.pt}), nil); f {
+				msg = "the domain rule is consulted although the full-address rule matched: " + r.F.Describe(path)
+			}
+		}
+		// default only on miss of the domain lookup: assignment from the default* field
+		// (the default block is selected where it is read: assigned to the result variable or returned directly)
+		defAssign := r.F.Find(func(n ast.Node) bool {
+			switch n.(type) {
+			case *ast.AssignStmt, *ast.ReturnStmt, *ast.ValueSpec:
+				return mentionsField(info, n, "defaultSource") || mentionsField(info, n, "defaultRcpt")
+			}
+			return false
+		})
+		if len(defAssign) != 1 {
+			msg = "expected exactly one fallback to the default block"
+		} else if dom.ok != nil {
+			if path, f := r.F.ReachRefined(dom.pt, dom.ok, false, true, isPt(defAssign), nil); f {
+				msg = "the default block is selected although the domain rule matched: " + r.F.Describe(path)
+			}
+			if ok, w := r.MustPass(r.Entry(), true, isPt(defAssign), isPt([]Pt{dom.pt})); !ok {
+				msg = "the default block is selected without the domain rule having been tried: " + w
+			}
+		}
+		// inside the table loop a hit returns that rule's block
+		hitRet := false
+		ast.Inspect(loops[0].Body, func(n ast.Node) bool {
+			if ret, ok := n.(*ast.ReturnStmt); ok && len(ret.Results) == 2 && isNilIdent(info, ret.Results[1]) {
+				if sx, ok := ast.Unparen(ret.Results[0]).(*ast.SelectorExpr); ok && objOf(info, sx.X) == objOf(info, loops[0].Value) {
+					hitRet = true
+				}
+			}
+			return true
+		})
+		if !hitRet {
+			msg = "a table hit does not select that table rule's block"
+		}
+		c.Hold("R2", s.fn, r.FI.Decl.Pos(), msg == "", msg)
+		// stage sequence for the sibling comparison
+		var seq []string
+		type ev struct {
+			pos token.Pos
+			s   string
+		}
+		var evs []ev
+		evs = append(evs, ev{loops[0].Pos(), "tables"}, ev{full.as.Pos(), "full"}, ev{dom.as.Pos(), "domain"})
+		if len(defAssign) == 1 {
+			evs = append(evs, ev{r.Pos(defAssign[0]), "default"})
+		}
+		for i := 0; i < len(evs); i++ {
+			for j := i + 1; j < len(evs); j++ {
+				if evs[j].pos < evs[i].pos {
+					evs[i], evs[j] = evs[j], evs[i]
+				}
+			}
+		}
+		for _, e := range evs {
+			seq = append(seq, e.s)
+		}
+		seqs = append(seqs, seq)
+	}
+	if len(seqs) == 2 {
+		same := len(seqs[0]) == len(seqs[1])
+		for i := range seqs[0] {
+			if same && seqs[0][i] != seqs[1][i] {
+				same = false
+			}
+		}
+		c.Hold("R2", "siblings", token.NoPos, same, "the sender selector and the recipient selector evaluate their stages in different orders")
+	}
+
 }
